@@ -903,6 +903,36 @@ OnnxQuantizeLinear(x, sc, zp, axis) ==
   IN FromFn(x.shape, dt, F)
 
 ---------------------------------------------------------------------------
+(* Sequence operators.  A sequence is a TLA+ sequence of tensors of one      *)
+(* element type; positions are Python list positions (negative = from back). *)
+DefSeq(sq) == \A k \in 1..Len(sq) : sq[k].dtype = sq[1].dtype
+OnnxSequenceAt(sq, pos) == sq[Norm(pos, Len(sq)) + 1]                   \* pos in [-n, n-1]
+OnnxSequenceLength(sq) == Scalar("i32", Len(sq))
+\* SequenceInsert: pos in [-n, n] (n appends; omitted = append)
+OnnxSequenceInsert(sq, t, pos) == LET p == Norm(pos, Len(sq)) IN InsertAt(sq, p + 1, t)
+\* SequenceErase: pos in [-n, n-1] (omitted = last)
+OnnxSequenceErase(sq, pos) == RemoveAt(sq, Norm(pos, Len(sq)) + 1)
+\* ConcatFromSequence(seq, axis, new_axis): Concat, or stack along a new axis.
+DefConcatFromSequence(sq, axis, newaxis) ==
+  /\ Len(sq) >= 1 /\ DefSeq(sq)
+  /\ IF newaxis
+     THEN /\ \A k \in 1..Len(sq) : sq[k].shape = sq[1].shape
+          /\ axis >= -(Rank(sq[1]) + 1) /\ axis <= Rank(sq[1])
+     ELSE DefConcat(sq, axis)
+OnnxConcatFromSequence(sq, axis, newaxis) ==
+  IF newaxis
+  THEN LET a == Norm(axis, Rank(sq[1]) + 1) IN OnnxConcat([k \in 1..Len(sq) |-> OnnxUnsqueeze(sq[k], <<a>>)], a)
+  ELSE OnnxConcat(sq, axis)
+\* SplitToSequence(input, split?, axis, keepdims): split omitted -> pieces of
+\* extent 1 (squeezed if keepdims=0); scalar split -> equal chunks, last one
+\* smaller; 1-D split -> the given sizes.
+ChunkSizes(dim, c) == [k \in 1..CeilDiv(dim, c) |-> MinI(c, dim - (k - 1) * c)]
+DefSplitToSequence(x, axis) == Rank(x) >= 1 /\ axis >= -Rank(x) /\ axis <= Rank(x) - 1
+OnnxSplitToSequenceOnes(x, axis, keep) ==
+  LET a == Norm(axis, Rank(x)) parts == OnnxSplit(x, axis, Ones(x.shape[a + 1]))
+  IN IF keep THEN parts ELSE [k \in 1..Len(parts) |-> OnnxSqueeze(parts[k], <<a>>)]
+
+---------------------------------------------------------------------------
 (* Dispatcher.                                                              *)
 \* Operators whose (first) output is an ONNX bool tensor.  rten stores bool as
 \* i32; the weakest reading of "bool represented as i32" is C truthiness, so
@@ -1137,5 +1167,37 @@ OnnxEval(op, attrs, ins) ==
          LET terms == A("_terms", <<>>)
              out == IF A("_implicit", 0) = 1 THEN EinsumImplicitOut(terms) ELSE A("_out", <<>>)
          IN G(DefEinsum(All, terms, out), OnnxEinsum(All, terms, out))
+    [] op \in {"SequenceConstruct", "SequenceAt", "SequenceLength", "SequenceInsert", "SequenceErase", "ConcatFromSequence"} ->
+         \* the first _nseq inputs are the elements of the input sequence (SequenceConstruct: all inputs)
+         LET ns == IF op = "SequenceConstruct" THEN N ELSE A("_nseq", 0)
+             sq == [k \in 1..ns |-> T(k)]
+             n == ns
+         IN IF ns > N \/ (\E k \in 1..ns : ~ins[k].p) \/ ns = 0 \/ ~DefSeq(sq) THEN Undefined ELSE
+            (CASE op = "SequenceConstruct" -> Ok(sq)
+               [] op = "SequenceLength" -> Ok1(OnnxSequenceLength(sq))
+               [] op = "SequenceAt" ->
+                    IF ~IsScal(ns + 1) \/ Scal(ns + 1) < -n \/ Scal(ns + 1) > n - 1 THEN Undefined
+                    ELSE Ok1(OnnxSequenceAt(sq, Scal(ns + 1)))
+               [] op = "SequenceInsert" ->
+                    IF ~Has(ns + 1) \/ T(ns + 1).dtype # sq[1].dtype THEN Undefined
+                    ELSE IF ~Has(ns + 2) THEN Ok(OnnxSequenceInsert(sq, T(ns + 1), n))
+                    ELSE IF ~IsScal(ns + 2) \/ Scal(ns + 2) < -n \/ Scal(ns + 2) > n THEN Undefined
+                    ELSE Ok(OnnxSequenceInsert(sq, T(ns + 1), Scal(ns + 2)))
+               [] op = "SequenceErase" ->
+                    IF ~Has(ns + 1) THEN Ok(OnnxSequenceErase(sq, n - 1))
+                    ELSE IF ~IsScal(ns + 1) \/ Scal(ns + 1) < -n \/ Scal(ns + 1) > n - 1 THEN Undefined
+                    ELSE Ok(OnnxSequenceErase(sq, Scal(ns + 1)))
+               [] op = "ConcatFromSequence" ->
+                    IF ~AHas(attrs, "axis") THEN Undefined ELSE
+                    G(DefConcatFromSequence(sq, A("axis", 0), A("new_axis", 0) = 1),
+                      OnnxConcatFromSequence(sq, A("axis", 0), A("new_axis", 0) = 1)))
+    [] op = "SplitToSequence" -> IF ~Need(1) \/ ~DefSplitToSequence(T(1), A("axis", 0)) THEN Undefined ELSE
+         LET x == T(1) ax == A("axis", 0) dim == x.shape[Norm(ax, Rank(x)) + 1] IN
+         IF ~Has(2) THEN Ok(OnnxSplitToSequenceOnes(x, ax, A("keepdims", 1) = 1))
+         ELSE IF ins[2].dtype # "i32" THEN Undefined
+         ELSE IF Len(ins[2].shape) = 0
+         THEN (IF Scal(2) < 1 THEN Undefined ELSE Ok(OnnxSplit(x, ax, ChunkSizes(dim, Scal(2)))))
+         ELSE IF Len(ins[2].shape) = 1 /\ DefSplitSizes(x, ax, L(2)) THEN Ok(OnnxSplit(x, ax, L(2)))
+         ELSE Undefined
     [] OTHER -> Unmodelled
 =============================================================================
